@@ -18,7 +18,8 @@ RULE = ("Up to 5 systems (plain System subclasses and Collector subclasses, whos
         "model.timestep == model.systems.timestep == harness counter after every request; invalid n -> TypeError/ValueError and "
         "nothing changes; metamorphic twin with every execute(n) replaced by n single steps gives the identical log. "
         "Non-trivial: a system with start != 0 and frequency > 1 that is seen both inside its window off phase and running, "
-        "or a system registered after its start. Distinct = digest of the case.")
+        "or a system registered after its start. Distinct = digest of the case."
+        " Added in rounds 19-24: scripts may take a registered system out and register the very object again between two steps; window numbers may be IntEnum members / bools.")
 EXHAUSTIVE_DOMAIN = ("every (start, end, frequency) in [-4,6] x ([-4,8] u {sys.maxsize}) x [1,5], timesteps 0..14, registered at t=0 "
                      "and at t=start+1 (quick: start in [-3,4], end in [-3,6] u {maxsize}, frequency [1,4], t 0..11)")
 ASSUMPTIONS = ["integer start/end, frequency >= 1 (the property's domain)", "bool n is not generated (whether True is an integer is "
